@@ -158,6 +158,7 @@ type exec struct {
 	files    []*os.File
 	dirs     []string
 	shadow   map[uintptr]*shadowCell
+	pools    map[*sync.Pool][]interface{}
 	ex       *Explorer
 }
 
@@ -667,6 +668,47 @@ func Atomic(p interface{}) {
 	if x, t := self(); x != nil {
 		x.park(t, &op{kind: opAtomic, obj: x.ptrObj(p, "atomic"), pos: caller(2)}, false)
 	}
+}
+
+// PoolGet / PoolPut stand for (*sync.Pool).Get / Put.  The real Pool is nondeterministic by contract
+// (per-P caches, items dropped by the collector); under the scheduler a pool is a per-execution stack
+// that never drops - one of its legal behaviours, the one in which pooled state is actually reused -
+// and each operation is a scheduling point on the pool.
+func PoolGet(p *sync.Pool) interface{} {
+	x, t := self()
+	if x == nil {
+		return p.Get()
+	}
+	x.park(t, &op{kind: opAtomic, obj: x.ptrObj(p, "pool"), pos: caller(2)}, false)
+	x.mu.Lock()
+	var v interface{}
+	if items := x.pools[p]; len(items) > 0 {
+		v = items[len(items)-1]
+		x.pools[p] = items[:len(items)-1]
+	}
+	x.mu.Unlock()
+	if v == nil && p.New != nil {
+		v = p.New()
+	}
+	return v
+}
+
+func PoolPut(p *sync.Pool, v interface{}) {
+	x, t := self()
+	if x == nil {
+		p.Put(v)
+		return
+	}
+	x.park(t, &op{kind: opAtomic, obj: x.ptrObj(p, "pool"), pos: caller(2)}, false)
+	if v == nil {
+		return
+	}
+	x.mu.Lock()
+	if x.pools == nil {
+		x.pools = map[*sync.Pool][]interface{}{}
+	}
+	x.pools[p] = append(x.pools[p], v)
+	x.mu.Unlock()
 }
 
 // ---------------------------------------------------------------- scheduling
